@@ -4,6 +4,7 @@ import (
 	"flag"
 	"fmt"
 	"os"
+	"runtime/pprof"
 	"sort"
 
 	"verif/mc/checks"
@@ -25,6 +26,11 @@ func main() {
 	fn := checks.Registry[id]
 	if fn == nil {
 		usage()
+	}
+	if pf := os.Getenv("VERIF_CPUPROFILE"); pf != "" {
+		f, _ := os.Create(pf)
+		pprof.StartCPUProfile(f)
+		vc.AtExit = pprof.StopCPUProfile
 	}
 	c := vc.NewCtx(id, *tier)
 	c.Replay = *replay
